@@ -787,7 +787,12 @@ impl KotoVm {
                     self.execution_state = ExecutionState::Suspended;
                     return Ok(value);
                 }
-                Err(error) => match self.pop_call_stack_on_error(error.clone(), true) {
+                Err(error) => match self.pop_call_stack_on_error(
+                    error.clone(),
+                    // Timeouts must not be caught by scripts, regardless of where they occurred
+                    // (e.g. in a nested VM running a generator or an overridden operator).
+                    !matches!(error.error, ErrorKind::Timeout(_)),
+                ) {
                     Ok((recover_register, ip)) => {
                         let catch_value = match error.error {
                             ErrorKind::KotoError { thrown_value, .. } => thrown_value,
